@@ -162,6 +162,48 @@ func checkC26(c *Ctx) *report.Result {
 		}
 		return out
 	}
+	// the per-cycle body may live in a helper of the same type that the loop calls once, unconditionally: then
+	// the helper's body is the loop body (its own branches are the conditions that count)
+	{
+		isStepCall := func(cl staticCall) bool {
+			for _, s := range steps {
+				if cl.Recv == s.recv && cl.Name == s.name {
+					return true
+				}
+			}
+			return false
+		}
+		direct := 0
+		for _, cl := range calls {
+			if isStepCall(cl) {
+				direct++
+			}
+		}
+		if direct == 0 {
+			var helpers []staticCall
+			for _, cl := range calls {
+				if cl.Callee != nil && recvTypeKey(cl.Callee) == recvTypeKey(fn) && len(cl.Callee.Blocks) > 0 {
+					n := 0
+					for _, inner := range callsIn(cl.Callee.Blocks) {
+						if isStepCall(inner) {
+							n++
+						}
+					}
+					if n > 0 {
+						helpers = append(helpers, cl)
+					}
+				}
+			}
+			if len(helpers) == 1 && len(inLoopCond(helpers[0].At.Block())) == 0 && len(ai.Loops(helpers[0].Callee)) == 0 {
+				hf := helpers[0].Callee
+				r.Extra["per_cycle_body_in_helper"] = fnName(hf)
+				body = hf.Blocks
+				calls = callsIn(body)
+				hcds := it.TransitiveControlDeps(hf)
+				inLoopCond = func(b *ssa.BasicBlock) []ai.CtrlDep { return hcds[b] }
+			}
+		}
+	}
 	var stepCalls []staticCall
 	var timerStep *ssa.Call
 	for _, s := range steps {
@@ -243,7 +285,33 @@ func checkC26(c *Ctx) *report.Result {
 			}
 		}
 		r.Ob("L3", n == 1, "timer request has a single call site", c.pos(req.At), fmt.Sprintf("%d call sites in the repository", n))
-		r.Ob("L2", len(others) == 1, "no further calls in the loop body", c.pos(h.Instrs[0]), fmt.Sprintf("%d calls besides the five steps (the timer request is the only one allowed)", len(others)))
+		// any further call in the loop body must leave the machine alone: it stores no machine state and reaches none
+		// of the step routines (a trace or statistics hook is not a second advance of the hardware)
+		var effectful []string
+		stepFns := map[*ssa.Function]bool{req.Callee: true}
+		for _, sc := range stepCalls {
+			stepFns[sc.Callee] = true
+		}
+		for _, cl := range others {
+			if cl.At == req.At {
+				continue
+			}
+			if cl.Callee == nil {
+				effectful = append(effectful, cl.Name+" (not a static call)")
+				continue
+			}
+			ev := c.evalCall(nil, cl.Callee, nil, nil, nil)
+			bad := len(ev.Stores) > 0 || ev.Post == nil || len(ev.Undecided) > 0
+			for _, f := range ev.Callees {
+				if stepFns[f] || c.W.CutFns[f] {
+					bad = true
+				}
+			}
+			if bad {
+				effectful = append(effectful, fnName(cl.Callee))
+			}
+		}
+		r.Ob("L2", len(effectful) == 0, "no further call in the loop body changes the machine", c.pos(h.Instrs[0]), fmt.Sprintf("%d calls besides the five steps and the timer request; with an effect on machine state or reaching a step routine: %v", len(others)-1, effectful))
 	}
 	// ---- L4
 	c.fanOut(r, "memory.Mapper", "EndMachineCycle", map[string]int{"oam.OAM": 1, "memory.rtc": 1})
@@ -297,6 +365,8 @@ func checkC26(c *Ctx) *report.Result {
 	}
 	// ---- R1
 	c.checkRun(r, run, fn)
+	r.Rule("L-cpu", "the CPU step acts in every machine cycle it is called in: one sub-instruction per call, returning idle only when the fetch routine reports the CPU halted or stopped (rule S1 of C02 re-stated)")
+	adopt(r, c.sibling("C02"), map[string]string{"S1": "L-cpu"}, "a CPU step that returns early for another reason lets the other components advance in a machine cycle in which the CPU did not act")
 	r.Rule("L-rtc", "the cartridge clock advances on every call of its step unless halted by its own halt bit (rule T-tick of C10 re-stated)")
 	adopt(r, c.sibling("C10"), map[string]string{"T-tick": "L-rtc"}, "a clock step that returns early for another reason does not advance the cartridge clock once per machine cycle")
 	return r
